@@ -7,6 +7,8 @@ package chain
 import (
 	"testing"
 
+	"pgregory.net/rapid"
+
 	"verif/harness/pbt"
 )
 
@@ -27,9 +29,13 @@ func (w *longWrap) After(c *Chain, wd *World, br *BlockResult, outs []TxOutcome)
 }
 
 func runLongProp(t *testing.T, property, name string, mk func() Monitor) {
+	runLongPropGen(t, property, name, "generator of TestC02_LongHistory (governance starts minting, several reporters report 1-3 bridge-deposit queries over three blocks, ~2000 operation-free blocks, tail of 8-13 generated blocks with cycle-list and deposit reports and any other transaction) under this property's monitor; non-trivial = >=1 aggregate produced after block 2000; distinct by SHA-256 of the history JSON", genLongHalt, mk)
+}
+
+func runLongPropGen(t *testing.T, property, name, rule string, gen func(*rapid.T) History, mk func() Monitor) {
 	pbt.Run(t, pbt.Prop[History]{Property: property, Name: name,
-		Rule: "generator of TestC02_LongHistory (governance starts minting, several reporters report 1-3 bridge-deposit queries over three blocks, ~2000 operation-free blocks, tail of 8-13 generated blocks with cycle-list and deposit reports and any other transaction) under this property's monitor; non-trivial = >=1 aggregate produced after block 2000; distinct by SHA-256 of the history JSON",
-		Gen: genLongHalt,
+		Rule: rule,
+		Gen:  gen,
 		Check: func(h History, info *pbt.CaseInfo, st *pbt.Stats) error {
 			mon := &longWrap{Monitor: mk()}
 			rs, _, v, err := RunHistory(h, mon)
@@ -71,4 +77,10 @@ func TestC05_StakeLedgerLong(t *testing.T) {
 
 func TestC08_AggregateHistoryLong(t *testing.T) {
 	runLongProp(t, "C08", "TestC08_AggregateHistoryLong", func() Monitor { return &aggHistMonitor{} })
+}
+
+func TestC04_EscrowLongDeposit(t *testing.T) {
+	runLongPropGen(t, "C04", "TestC04_EscrowLongDeposit",
+		"generator of TestC07_LongDepositRound (an untipped bridge-deposit round opened by direct reports, ~2000 operation-free blocks, further deposit reports one block before / at / after its expiry height, tips before or after those reports) under the escrow invariants; non-trivial = >=1 aggregate produced after block 2000; distinct by SHA-256 of the history JSON",
+		genLongDeposit, func() Monitor { return &escrowMonitor{} })
 }
